@@ -22,10 +22,10 @@ CHECKS = {
  "C15": ("fault_enumeration", "runtime fault injection on proof structure: every array node / option / non-field integer of proof, common data and parameters structurally mutated and fed to the circuit builders in memory-limited child processes; an optional part added where the shape has none is part of the mutant set; panics, aborts, circuits accepting what native rejects, and a builder returning Ok for what the native verifier rejects for a structural reason are violations",
          "Exhaustive structural mutants per shape (9 shapes quick, all thorough) x 4-5 entry points (verify_p3_uni_proof_circuit, verify_p3_batch_proof_circuit, verify_batch_circuit, verify_fri_circuit, build_next_layer_circuit). Panics inside native verifiers are observations only.",
          "DESIGN.md §3 C15", TRUSTED),
- "C04": ("fault_enumeration", "runtime fault injection on execution traces: honest Traces of generated programs are forged (table cell, slot value on all tables, constants, public cells), labelled by an independent op-relation evaluator, proven with the honest prover data and shown to the real verifier",
-         "Enumerated single-fault classes on ALU/Const/Public tables of generated circuits in 8 field setups; a forgery labelled unsatisfying must be rejected. Non-primitive rows are covered at row level by C11 and for the challenger by C06. Coordinated multi-cell attacks are outside the explored set.",
+ "C04": ("fault_enumeration", "runtime fault injection on execution traces: honest Traces of generated programs are forged (table cell, slot value on all tables, constants, public cells), labelled by an independent op-relation evaluator, proven with the honest prover data and shown to the real verifier; second stream (c04npo): the recorded Poseidon permutation rows of row programs / add_mmcs_verify / add_hash_slice circuits are forged (chained limb, witness-bound limb, zero limb, each plain and with the permutation recomputed and carried down the chain, direction-bit flip), labelled by an independent model of the row relation that is first validated on the honest rows",
+         "Enumerated single-fault classes on ALU/Const/Public tables of generated circuits in 8 field setups and on Poseidon2/Poseidon1 sponge, chained and arity-2 Merkle rows in 6 packed configurations; a forgery labelled unsatisfying must be rejected. Arity-4 and compact D=1 rows are covered at row level by C11 and for the challenger by C06. Coordinated multi-cell attacks beyond change-and-carry are outside the explored set.",
          "DESIGN.md §3 C04", TRUSTED),
- "C05": ("exploration", "differential runtime monitor over call histories: random interleavings of observe/sample/sample_bits/check_pow_witness/clear are executed by the in-circuit challenger (real runner) and by the native DuplexChallenger; every sampled value, bit vector and PoW verdict compared",
+ "C05": ("exploration", "differential runtime monitor over call histories: random interleavings of observe/sample/sample_bits/check_pow_witness/clear are executed by the in-circuit challenger (real runner) and by the native DuplexChallenger; every sampled value, bit vector and PoW verdict compared; second stream: two or three challengers in one circuit with interleaved operations, each compared with its own native transcript",
          "Random histories biased to buffer boundaries over 12 challenger configurations (Poseidon1/2, D1/D2/D4/D5-over-D1, recompose table on/off); distinct buffer-state paths are counted in the evidence.",
          "DESIGN.md §3 C05", TRUSTED),
  "C06": ("fault_enumeration", "runtime fault injection with deviating executors: histories are run with a permutation executor / decomposition hints that deviate on values the verifier does not fix (permutation outputs, and non-bus INPUT lanes of a permutation row forged in the trace with the row recomputed and carried), the traces are proven with the honest prover data and verified; accepted proofs must carry the native challenges",
@@ -46,7 +46,7 @@ CHECKS = {
  "C10": ("exploration", "runtime pipeline monitor: generated programs with satisfying inputs are taken through the real build -> key generation -> run -> prove -> verify under random prover configurations; failures are classified with the bus monitor",
          "Programs from the generator (3/4 in the dialect that avoids known-broken constructs) x random packings, 8 field setups, plus the directed shapes named by the property.",
          "DESIGN.md §3 C10", TRUSTED),
- "C12": ("fault_enumeration", "runtime fault injection with deviating hint executors: the decomposition hints of circuits using decompose_to_bits / decompose_ext_to_base_coeffs are replaced by alternatives satisfying the recomposition identity (bits of x+kp, one non-boolean bit compensating a flipped one, moved coefficient mass); traces are proven with the honest prover data and verified",
+ "C12": ("fault_enumeration", "runtime fault injection with deviating hint executors: the decomposition hints of circuits using decompose_to_bits / decompose_ext_to_base_coeffs are replaced by alternatives satisfying the recomposition identity (bits of x+kp, one non-boolean bit compensating a flipped one, extension-valued bits whose higher limbs cancel, moved coefficient mass), optionally together with a trace-level forgery of the bool-check rows of the prover's own ALU trace; traces are proven with the honest prover data and verified",
          "Value classes (0, 1, small, around the 2^n-p slack, p-1, random) x widths x k in 1..3 for bits; three mass-moving families for coefficients, ALU and recompose-table paths; 8 field setups. Challenger gadgets are covered by C06.",
          "DESIGN.md §3 C12", TRUSTED),
  "C13": ("exploration", "differential runtime monitor: random symbolic constraint DAGs (and the repo's real AIRs) are compiled by the real symbolic compiler / eval_folded_circuit, run, and compared with the native verifier constraint folder on random assignments",
@@ -61,7 +61,7 @@ CHECKS = {
  "C11": ("fault_enumeration", "runtime monitor over explicit trace rows: the real AIR constraints (incl. bus tuples) are evaluated on valid rows and on every single-cell perturbation and compared with an independent evaluation of the operation's relation in native field arithmetic",
          "Every cell of every row layout (all op kinds x reductions x lanes x Horner packings, Poseidon1/2 row kinds) perturbed one at a time; constraints must accept exactly when the independently evaluated relation holds. Round-internal Poseidon columns are not perturbed.",
          "DESIGN.md §3 C11", TRUSTED),
- "C16": ("fault_enumeration", "runtime fault injection on proof metadata: every self-declared metadata field of real circuit proofs (honest and of invalid traces) altered through the serialised form, verdict of the real verifier observed; serialisation round-trip differential",
+ "C16": ("fault_enumeration", "runtime fault injection on proof metadata: every self-declared metadata field of real circuit proofs (honest and of invalid traces) altered through the serialised form, verdict of the real verifier observed; serialisation round-trip differential; in-memory-only fields (stark_common.lookups, which serialisation does not carry) altered in the proof object and in the prover data, verdict compared with the verdict after a round trip",
          "Exhaustive single-field (sampled pairs) alteration of BatchStarkProof metadata on 6 configurations; a relying party pinning the preprocessed commitment never accepts an invalid-trace proof; codecs preserve the verdict. A verifier panic counts as (unclean) rejection and is reported as an observation.",
          "DESIGN.md §3 C16", TRUSTED),
  "C17": ("exploration", "runtime monitor over call histories of the real recursion API (next-layer / aggregation steps, adversarial cache offers): each output verified natively and fed to a further layer, cached vs uncached verdicts compared, and a state invariant of the aggregation cache slot (untouched, or fingerprint of the circuit just proven) asserted after every call that was handed a slot",
